@@ -34,7 +34,8 @@ int main(int argc, char **argv) {
         if (pid == 0) {
             close(pfd[0]);
             signal(SIGABRT, SIG_DFL); signal(SIGSEGV, SIG_DFL);
-            int dn = open("/dev/null", O_WRONLY); dup2(dn, 2);
+            { std::string op = args.s("out", "-"); std::string ce = op.size() > 6 && op.substr(op.size() - 6) == ".jsonl" ? op.substr(0, op.size() - 6) + ".san.child" : std::string("/dev/null");
+              int dn = open(ce.c_str(), O_WRONLY | O_CREAT | O_APPEND, 0600); if (dn < 0) dn = open("/dev/null", O_WRONLY); dup2(dn, 2); }
             // what happened in this process before the request must not matter
             if (history == 1 || history == 2) {      // a custom, near-default parameter set imported through tfhe_io first
                 for (double bk: {2e-8, 0.0, 7.0e-9, 3.0e-8}) for (double ksd: {3.0e-5, 2.44e-5}) {
